@@ -404,6 +404,8 @@ type Interp struct {
 	Inline func(fn *ssa.Function) bool
 	// Watch: record loads of symbolic locations as events
 	WatchLoads bool
+	// HavocKeep: symbolic locations an opaque call is assumed not to modify (frame condition)
+	HavocKeep func(key string) bool
 	MaxDepth   int // max inlining depth
 	MaxVisits  int // per-activation block visit bound (loop unrolling)
 	MaxRecur   int // max simultaneous activations of one function
@@ -572,6 +574,29 @@ func (in *Interp) binop(op token.Token, x, y AV, t types.Type) AV {
 			}
 		}
 	}
+	// linear arithmetic over one symbolic base: (b + c1) + c2 = b + (c1+c2)
+	if op == token.ADD || op == token.SUB {
+		if bx, ox, ok := linear(x); ok {
+			if cy2, ok := asInt(y); ok {
+				if op == token.SUB {
+					cy2 = -cy2
+				}
+				return mkLinear(bx, ox+cy2)
+			}
+		}
+		if by, oy, ok := linear(y); ok && op == token.ADD {
+			if cx2, ok := asInt(x); ok {
+				return mkLinear(by, oy+cx2)
+			}
+		}
+	}
+	if op == token.EQL || op == token.NEQ || op == token.LSS || op == token.LEQ || op == token.GTR || op == token.GEQ {
+		bx, ox, okx2 := linear(x)
+		by, oy, oky2 := linear(y)
+		if okx2 && oky2 && bx.String() == by.String() {
+			return mkBool(constant.Compare(constant.MakeInt64(ox), op, constant.MakeInt64(oy)))
+		}
+	}
 	if op == token.EQL || op == token.NEQ {
 		xn, xk := nilness(x)
 		yn, yk := nilness(y)
@@ -585,6 +610,38 @@ func (in *Interp) binop(op token.Token, x, y AV, t types.Type) AV {
 		}
 	}
 	return Expr{Op: op.String(), Args: []AV{x, y}}
+}
+
+// linear decomposes v as base + offset for a symbolic (non-constant) integer base.
+func linear(v AV) (base AV, off int64, ok bool) {
+	switch e := v.(type) {
+	case Sym:
+		return e, 0, true
+	case Expr:
+		if e.Op == "+" && len(e.Args) == 2 {
+			if c, isC := asInt(e.Args[1]); isC {
+				if b, o, ok := linear(e.Args[0]); ok {
+					return b, o + c, true
+				}
+			}
+			if c, isC := asInt(e.Args[0]); isC {
+				if b, o, ok := linear(e.Args[1]); ok {
+					return b, o + c, true
+				}
+			}
+		}
+		if e.Op == "len" || e.Op == "load" || strings.HasPrefix(e.Op, "recv") {
+			return e, 0, true
+		}
+	}
+	return nil, 0, false
+}
+
+func mkLinear(base AV, off int64) AV {
+	if off == 0 {
+		return base
+	}
+	return Expr{Op: "+", Args: []AV{base, mkInt(off)}}
 }
 
 func constOf(a AV) (constant.Value, bool) {
@@ -762,7 +819,7 @@ func (in *Interp) load(st *State, addr AV, t types.Type, pos token.Pos) AV {
 			return in.refined(st, v)
 		}
 		name := key
-		if st.epoch > 0 && !strings.HasPrefix(key, "imm:") {
+		if st.epoch > 0 && !strings.HasPrefix(key, "imm:") && !(in.HavocKeep != nil && in.HavocKeep(key)) {
 			name = fmt.Sprintf("%s@%d", key, st.epoch)
 		}
 		if in.WatchLoads {
@@ -1417,6 +1474,9 @@ func (in *Interp) finishUnknown(st *State, ctx *CallCtx, ev Event, rts []types.T
 func (in *Interp) havoc(st *State) {
 	st.epoch++
 	for key := range st.symMem {
+		if in.HavocKeep != nil && in.HavocKeep(key) {
+			continue
+		}
 		delete(st.symMem, key)
 	}
 }
